@@ -51,7 +51,7 @@ func Drive(r *vlib.R, scenarios []Named, maxBound int, lookup func(c Case) *Scen
 	}
 	si, sn := r.Shard()
 	totalStates := int64(0)
-	for _, ns := range scenarios {
+	for scenarioIdx, ns := range scenarios {
 		s := ns.S
 		if err := CheckDeterminism(s); err != nil {
 			r.T.Fatalf("HARNESS-ERROR scenario %s: %v", s.Name, err)
@@ -112,9 +112,8 @@ func Drive(r *vlib.R, scenarios []Named, maxBound int, lookup func(c Case) *Scen
 				r.Outcome(s.Name + ": " + o)
 				r.Nontrivial(s.Name + "|" + o)
 			}
-			r.Set("completed_bound:"+s.Name, completed)
-			r.Set("max_threads:"+s.Name, st.MaxThreads)
-			r.Set("executions:"+s.Name, st.Executions)
+			r.Set(fmt.Sprintf("scenario_%02d", scenarioIdx), map[string]any{"scenario": s.Name, "completed_bound": completed,
+				"max_threads": st.MaxThreads, "executions": st.Executions, "distinct_outcomes": len(st.Outcomes)})
 			if len(st.Outcomes) == 1 && st.Executions > 50 {
 				r.Note("scenario %s: %d executions gave one distinct outcome", s.Name, st.Executions)
 			}
